@@ -9,7 +9,7 @@ INVARIANTS OwnerReads AnonSeesOnlyPublic UpdateImpliesRead NonInterference
 PROPERTIES RefusedChangesNothing
 CHECK_DEADLOCK FALSE
 """
-GEN = """SPECIFICATION Spec
+GEN = """SPECIFICATION GenSpec
 CONSTANTS Actors = {{1,2,3}} Docs = {{1,2,3}} MaxVal = 3 MaxSteps = {steps}
 VIEW view
 ACTION_CONSTRAINT ExportLeaves
@@ -36,7 +36,7 @@ def check(run, replay):
     for i, f in enumerate(files):
         out = os.path.join(run.tmp, "acpres-%d.json" % i)
         try:
-            run.run_driver(binary, ["-beh", f, "-out", out] + ([] if replay else ["-budget", "900s" if thorough else "80s"]), timeout=4000)
+            run.run_driver(binary, ["-beh", f, "-out", out] + (["-full"] if replay else ["-budget", "900s", "-full"] if thorough else ["-budget", "80s"]), timeout=4000)
         except vlib.Crash as c:
             viol.append({"kind": "node-panic", "msg": "DefraDB died under an ACP request: %s\n%s" % (c.head, c.stack[:1500])})
             continue
